@@ -135,7 +135,7 @@ def _coef(ctx, J, eps):
     ctx.prec = wppi
     pipower = {}
     pipower[0] = ctx.one
-    pipower[1] = ctx.pi
+    pipower[1] = +ctx.pi
     for n in range(2,2*newJ+1):
         pipower[n] = pipower[n-1]*ctx.pi
 
@@ -197,11 +197,17 @@ def coef(ctx, J, eps):
     _cache = ctx._rs_cache
     if J <= _cache[0] and eps >= _cache[1]:
         return _cache[2], _cache[3]
+    # (the coefficients are computed in ctx._mp, which for fp is another
+    # context: with its precision and settings put back afterwards, and
+    # without its trap_complex, the computation being complex by nature)
     orig = ctx._mp.prec
+    trap = ctx._mp.trap_complex
     try:
+        ctx._mp.trap_complex = False
         data = _coef(ctx._mp, J, eps)
     finally:
         ctx._mp.prec = orig
+        ctx._mp.trap_complex = trap
     if ctx is not ctx._mp:
         data[2] = dict((k,ctx.convert(v)) for (k,v) in data[2].items())
         data[3] = dict((k,ctx.convert(v)) for (k,v) in data[3].items())
